@@ -27,7 +27,13 @@ RULE = ("case = family x boundary flag x d in 1..3 x domain [a,b] (ends from sma
         "are really dropped). Per area: integrate(1+linear) is called first while the grid still sits on the previous "
         "area (stale state), then setCurrentArea, points, weights, announced numbers, integrate of a vector valued "
         "function (all t-monomials up to the nominal degree, sampled if > 400/120, + nodal unit functions when <= "
-        "300/64 points) and of a random scalar combination. Distinct = distinct case dict.")
+        "300/64 points) and of a random scalar combination. Error paths: a third of the cases issues 1-2 requests that "
+        "the unchanged library rejects by raising (level vector as NumPy integer array with a negative entry, None / "
+        "NaN / non-integer / negative Python int entry, level vector too short / too long, start too short, end too "
+        "long; through setCurrentArea or integrate) on the same object before one of the valid areas; the exception is "
+        "caught and every following valid area must pass all clauses and give bit-identical announced numbers, points "
+        "and weights as a fresh object that only got the valid requests (signature suffix /after-a-rejected-request "
+        "for whatever fails only on the object with the rejected request). Distinct = distinct case dict.")
 ASSUMPTIONS = [
     "boundary=False is exercised for TrapezoidalGrid and BSplineGrid only; Simpson/Clenshaw-Curtis/Leja/Lagrange "
     "with boundary=False have no caller, test or tutorial in the repository and are excluded (DESIGN section 3.1)",
@@ -49,6 +55,10 @@ ASSUMPTIONS = [
     "level vectors are lists of ints >= 0 (extend-split passes level - lmin >= 0), a/b/start/end are float numpy "
     "arrays, sub-box ends are produced by (s+e)/2 like Grid1d.get_mid_point",
     "GaussLegendreGrid is used with normalize=False (Grid_Tutorial)",
+    "invalid requests are exactly the kinds every family rejects by raising on the unchanged tree (probed: 9 kinds x 9 "
+    "family/flag combinations x setCurrentArea/integrate); inputs the library silently accepts (start>=end, box outside "
+    "the domain, start=None; float / negative Python int levels for Gauss-Legendre) are not used; nothing is asserted "
+    "about the exception type, only about the object afterwards",
     "every tolerance of the harness is relative (to the box volume, to |start|+|end| of the dimension); 'on the global "
     "boundary' is known exactly from the bisection path, never from a comparison of floats",
 ]
@@ -261,7 +271,7 @@ def bucket(deg):
     return "deg0" if deg == 0 else "deg1" if deg == 1 else "deg2-3" if deg <= 3 else "deg>=4"
 
 
-def check_area(out, sub, case, grid, area, rng, info, tag, limits):
+def check_area(out, sub, case, grid, area, rng, info, tag, limits, obs=None):
     """all clauses of the statement for one visited area; returns the observed (points, weights) or None"""
     fam, p, d = case["family"], case.get("p", 0), case["d"]
     boundary = True if fam == "gauss" else case["boundary"]
@@ -293,6 +303,8 @@ def check_area(out, sub, case, grid, area, rng, info, tag, limits):
     weights = np.asarray(weights, dtype=float).reshape(-1)
     npts = int(np.prod(announced))
     info["max_points"] = max(info.get("max_points", 0), npts)
+    if obs is not None:
+        obs.update(announced=announced, points=points, weights=weights)
 
     # --- clause 1: as many points as announced -------------------------------------------------------------
     if len(points) != npts or len(weights) != npts:
@@ -500,7 +512,52 @@ def compare_with_trapezoid_model(out, sub, case, area, points, weights, boundary
         out.bad("%s/points/not-a-tensor-grid" % sub, "%s: %d model points missing" % (tag, len(mw)))
 
 
-def run_generic(case, sub, grid_factory=make_grid):
+INVALID_KINDS = ("neg-npint", "none", "nan", "short", "long", "start-short", "end-long", "float", "neg-pyint")
+# kinds that GaussLegendreGrid silently accepts (it truncates the point number with int()): not used for it
+INVALID_NOT_FOR = {"gauss": ("float", "neg-pyint")}
+
+
+def issue_invalid_request(grid, case, area, inv):
+    """one request the unchanged library rejects by raising; returns the exception type name or None if accepted"""
+    from sparseSpACE.Function import FunctionCustom
+    d = case["d"]
+    k = inv["dim"] % d
+    start, end, lv = area.start.copy(), area.end.copy(), list(area.level)
+    kind = inv["kind"]
+    if kind == "neg-npint":                 # e.g. the result of lmax - k arithmetic on NumPy integers
+        lv = np.array(lv, dtype=int)
+        lv[k] = -1 - (inv["dim"] // 3) % 2
+    elif kind == "none":
+        lv[k] = None
+    elif kind == "nan":
+        lv[k] = float("nan")
+    elif kind == "float":
+        lv[k] = lv[k] + 0.5
+    elif kind == "neg-pyint":
+        lv[k] = -1
+    elif kind == "short":
+        lv = lv[:-1]
+    elif kind == "long":
+        lv = lv + [1]
+    elif kind == "start-short":
+        start = start[:-1]
+    elif kind == "end-long":
+        end = np.append(end, end[-1] + 1.0)
+    else:
+        raise ValueError(kind)
+    try:
+        if inv["call"] == "set":
+            grid.setCurrentArea(start, end, lv)
+        else:
+            grid.integrate(FunctionCustom(lambda x: 1.0), lv, start, end)
+    except Exception as ex:  # the contract here is "raises on invalid input": any exception is the rejection
+        return type(ex).__name__
+    return None
+
+
+def run_sequence(case, sub, grid_factory, invalid, reference=None):
+    """drive one grid object through the areas of the case (and the invalid requests in between, if any).
+    reference = (signatures, observations) of a fresh object that only got the valid requests."""
     out = Outcome()
     fam, d = case["family"], case["d"]
     rng = np.random.default_rng(case["rng"])
@@ -509,10 +566,25 @@ def run_generic(case, sub, grid_factory=make_grid):
                   max_unit_points=64 if fam in HIER else 300)
     info = {}
     nt = False
+    observations = []
+    rejected = False
     for i, spec in enumerate(case["areas"]):
         area = Area(case, spec)
         tag = "area %d" % i
-        got = check_area(out, sub, case, grid, area, rng, info, tag, limits)
+        for inv in invalid:
+            if inv["before"] % len(case["areas"]) == i:
+                exc = issue_invalid_request(grid, case, area, inv)
+                if exc is None:
+                    out.cls("invalid-request-silently-accepted:" + inv["kind"])
+                else:
+                    rejected = True
+                    out.cls("rejected-request-in-between", "rejected-kind=" + inv["kind"],
+                            "rejected-call=" + ("setCurrentArea" if inv["call"] == "set" else "integrate"))
+        nviol = len(out.violations)
+        obs = {}
+        observations.append(obs)
+        got = check_area(out, sub, case, grid, area, rng, info, tag + (" (after a rejected request)" if rejected else ""),
+                         limits, obs)
         if fam == "trapezoidal" and got is not None:
             boundary = case["boundary"]
             compare_with_trapezoid_model(out, sub, case, area, got[0], got[1], boundary, tag)
@@ -548,6 +620,30 @@ def run_generic(case, sub, grid_factory=make_grid):
                         elif diff[:, d].max() > TOL_MODEL:
                             out.bad("%s/on-off/remaining-weight-changed" % sub, "%s: start=%s end=%s level=%s"
                                     % (tag, area.start.tolist(), area.end.tolist(), area.level))
+        if rejected and reference is not None:
+            # the object must behave exactly like a fresh one that only got the valid requests
+            ref_sigs, ref_obs = reference
+            ro = ref_obs[i] if i < len(ref_obs) else {}
+            if obs and ro:
+                what = None
+                if obs["announced"] != ro["announced"]:
+                    what = "announced-numbers"
+                elif obs["points"] != ro["points"]:
+                    what = "points"
+                elif not np.array_equal(obs["weights"], ro["weights"]):
+                    what = "weights"
+                if what:
+                    out.bad("%s/state/%s-%s-differ-from-fresh-grid/after-a-rejected-request" % (sub, fam, what),
+                            "%s: start=%s end=%s level=%s boundary=%s: announced %s (fresh object %s), %d points (fresh %d), "
+                            "first points %s (fresh %s), get_boundaries()=%s; invalid requests issued before: %s"
+                            % (tag, area.start.tolist(), area.end.tolist(), area.level, case["boundary"], obs["announced"],
+                               ro["announced"], len(obs["points"]), len(ro["points"]), obs["points"][:3], ro["points"][:3],
+                               [bool(x) for x in grid.get_boundaries()], invalid))
+            # a clause that fails here but not on the fresh object is caused by the rejected request
+            for j in range(nviol, len(out.violations)):
+                sig, msg = out.violations[j]
+                if sig not in ref_sigs and not sig.endswith("/after-a-rejected-request"):
+                    out.violations[j] = (sig + "/after-a-rejected-request", msg)
         # classes / non-triviality
         where = "whole-domain" if not area.proper else ("touching-boundary" if area.touches else "interior")
         out.cls(where)
@@ -577,6 +673,20 @@ def run_generic(case, sub, grid_factory=make_grid):
     out.nontrivial = nt
     info["max_dim"] = d
     out.info = info
+    return out, observations
+
+
+def run_generic(case, sub, grid_factory=make_grid):
+    invalid = case.get("invalid") or []
+    if not invalid:
+        return run_sequence(case, sub, grid_factory, [])[0]
+    ref_out, ref_obs = run_sequence(case, sub, grid_factory, [])
+    ref_sigs = set(sig for sig, _ in ref_out.violations)
+    out, _ = run_sequence(case, sub, grid_factory, invalid, (ref_sigs, ref_obs))
+    have = set(sig for sig, _ in out.violations)
+    for sig, msg in ref_out.violations:          # (cannot happen unless the rejected request hides a violation)
+        if sig not in have:
+            out.bad(sig, msg)
     return out
 
 
@@ -662,6 +772,13 @@ def case_strategy(families, tier, boundary_choices, point_cap):
                     rng=draw(st.integers(0, 2 ** 31 - 1)))
         if fam in NODAL and fam != "gauss":
             case["old_integrator"] = draw(st.sampled_from([False, False, False, True]))
+        # error paths: in a third of the cases one or two requests that the library rejects by raising are issued
+        # on the same object before one of the valid areas
+        if draw(st.sampled_from([False, False, True])):
+            kinds = [k for k in INVALID_KINDS if k not in INVALID_NOT_FOR.get(fam, ())]
+            case["invalid"] = [dict(before=draw(st.integers(0, nareas - 1)), kind=draw(st.sampled_from(kinds)),
+                                    dim=draw(st.integers(0, 5)), call=draw(st.sampled_from(["set", "int"])))
+                               for _ in range(draw(st.sampled_from([1, 1, 2])))]
         return case
     return s()
 
@@ -766,6 +883,28 @@ def selftest():
     c4 = hier_fixed()[0]
     sigs = [s for s, _ in run_generic(c4, "hier", corrupt("weight")).violations]
     assert any("/exactness/" in s or "/wsum/" in s for s in sigs), sigs
+
+    # (5) an object that keeps a switched-on 1D boundary flag after a rejected request must be flagged, and only with
+    # the /after-a-rejected-request suffix; the same case on the real library must be clean
+    def sticky(case, boundary=None):
+        g = make_grid(case, boundary)
+        orig = g.setCurrentArea
+
+        def patched(start, end, levelvec):
+            try:
+                orig(start, end, levelvec)
+            except Exception:
+                g.grids[-1].boundary = True
+                raise
+        g.setCurrentArea = patched
+        return g
+
+    c5 = dict(trap_fixed()[0])
+    c5["invalid"] = [dict(before=1, kind="none", dim=1, call="int")]
+    assert not run_generic(c5, "trap_boundary").violations
+    sigs = [s for s, _ in run_generic(c5, "trap_boundary", sticky).violations]
+    assert sigs and all(s.endswith("/after-a-rejected-request") for s in sigs), sigs
+    assert any("/state/" in s for s in sigs), sigs
 
 
 SUBS = [
